@@ -50,6 +50,7 @@ type behaviour struct {
 	Big   []bigDesc    `json:"big"` // large inputs as descriptors (big.go)
 	Enc   []encBigSpec `json:"enc"` // encode side at the header-class boundaries (encbig.go)
 	Seq   *seqSpec     `json:"seq"` // a stateful sequence on a mutable container (seq.go)
+	Api   *apiSpec     `json:"api"` // a sequence of calls of the encoder entry points (api.go)
 }
 
 func ints(b []byte) []int {
@@ -273,6 +274,10 @@ func runBehaviour(env *drive.Env, w *world, beh *behaviour) {
 	}
 	if beh.Seq != nil {
 		runSeq(env, beh.Seq)
+		return
+	}
+	if beh.Api != nil {
+		runAPI(env, beh.Api)
 		return
 	}
 	if beh.Ty == "generic" {
